@@ -6,7 +6,7 @@
    arbitrary match type K, every configuration with capacities >= 1 and EVERY schedule. *)
 From Coq Require Import List NArith Arith Permutation Bool.
 From RareV Require Import Base.Hex Model.Lines Model.Batch Model.Pipeline
-  Proofs.BatchProof Proofs.PipelineProof Proofs.PipelineEnd Gen.GenConsts.
+  Proofs.BatchProof Proofs.PipelineProof Proofs.PipelineEnd Gen.GenConsts Model.Skel Gen.GenSkel.
 Import ListNotations.
 
 (* batching loses and duplicates nothing, for every batch size and every time-flush oracle; the line
@@ -83,6 +83,24 @@ Theorem C01_end_to_end : forall K classify c ds nw s, cfg_ok c -> nw >= 1 ->
   errs K s = errors_of (map source_of ds).
 Proof. exact end_to_end. Qed.
 Print Assumptions C01_end_to_end.
+
+(* translator obligation: the structure the transition system assumes is the structure of the source.
+   Gen/GenSkel.v is the communication skeleton (sends, receives, go / defer statements, wait-group and
+   close calls, the assignments to the batch variables, in syntactic order with their lexical context)
+   regenerated from fileBatcher.go, readerBatcher.go, batcher.go and extractor.go on every run; the
+   conditions (Model/Skel.v) are: the spawning loop takes the semaphore slot before it starts a
+   reader, a reader gives it back and signals the wait group in a deferred function, an open
+   failure counts one error and returns, the batch channel is closed exactly once after wg.Wait; both
+   batching loops send {batch, source, batchStart}, advance batchStart by the batch length and
+   continue with a FRESH slice, and send the rest after the loop; New starts the workers after
+   wg.Add and closes the match channel in a separate goroutine after wg.Wait; a worker signals the
+   wait group in a deferred call, numbers the lines BatchStart+idx and sends the matches of one
+   batch once, after the batch's last line *)
+Theorem C01_skeleton :
+  open_files_ok skel_open_files && open_reader_ok skel_open_reader && batcher_close_ok skel_batcher_close &&
+  sync_reader_ok skel_sync_reader && sync_reader_ok skel_sync_reader_flush &&
+  extractor_new_ok skel_extractor_new && async_worker_ok skel_async_worker = true.
+Proof. vm_compute. reflexivity. Qed.
 
 (* non-vacuity: a two-source system has an enabled first step *)
 Example C01_example_step :
